@@ -159,3 +159,122 @@ Fixpoint parts_ok (u : utable) (rs : list (nat * nat)) (ls : list text) (i : nat
       /\ (exists l, nth_error ls (a - i) = Some l /\ is_blank u l = false)
       /\ parts_ok u rest (skipn (S b - i) ls) (S b)
   end.
+
+(* ---------------------------------------------------------------------------------------------
+   Reference: how Python's lexer moves through one physical line, character by character (strings end at the first
+   unescaped closing delimiter, a backslash escapes exactly one character inside a string, outside strings a
+   backslash is only legal as the last character of the line). f-literals are treated as plain literals (no 3.12
+   nesting: texts with nested same-type quotes are outside this reference).
+   Result: (open string delimiter, bracket depth, explicit continuation), None = the lexer rejects the line. *)
+Fixpoint starts_with_l (d r : text) : bool :=
+  match d, r with
+  | [], _ => true
+  | x :: d', y :: r' => (x =? y) && starts_with_l d' r'
+  | _ :: _, [] => false
+  end.
+Definition delim_at (r : text) : text :=
+  match r with
+  | q :: c1 :: c2 :: _ => if (c1 =? q) && (c2 =? q) then [q; q; q] else [q]
+  | q :: _ => [q]
+  | [] => []
+  end.
+
+Fixpoint ref_chars (fuel : nat) (ins : text) (op : Z) (r : text) {struct fuel} : option (text * Z * bool) :=
+  match fuel with
+  | O => None
+  | S f =>
+      match r with
+      | [] => Some (ins, op, false)
+      | c :: r1 =>
+          match ins with
+          | _ :: _ =>
+              if c =? cBSL then match r1 with [] => Some (ins, op, true) | _ :: r2 => ref_chars f ins op r2 end
+              else if starts_with_l ins r then ref_chars f [] op (skipn (length ins) r)
+              else ref_chars f ins op r1
+          | [] =>
+              if c =? cHASH then Some ([], op, false)
+              else if is_quote c then ref_chars f (delim_at r) op (skipn (length (delim_at r)) r)
+              else if is_open c then ref_chars f [] (op + 1)%Z r1
+              else if is_close c then ref_chars f [] (op - 1)%Z r1
+              else if c =? cBSL then match r1 with [] => Some ([], op, true) | _ => None end
+              else ref_chars f [] op r1
+          end
+      end
+  end.
+
+Definition ref_line (st : lstate) (line : text) : option lstate :=
+  match ref_chars (S (length line)) (in_string st) (open_count st) line with
+  | Some (ins, op, cont) => Some {| in_string := ins; open_count := op; continuation := cont |}
+  | None => None
+  end.
+
+(* the same outer loop as custom_go, over the reference line analysis *)
+Fixpoint ref_gen_go (u : utable) (ls : list text) (i : nat) (st : lstate) (cur : option nat) : option (list (nat * nat)) :=
+  match ls with
+  | [] => Some []
+  | l :: rest =>
+      let step start :=
+        match ref_line st l with
+        | None => None
+        | Some st' =>
+            if negb (line_open st') || match rest with [] => true | _ => false end
+            then option_map (cons (start, i)) (ref_gen_go u rest (S i) st' None)
+            else ref_gen_go u rest (S i) st' (Some start)
+        end in
+      match cur with
+      | None => if is_blank u l then ref_gen_go u rest (S i) st None else step i
+      | Some start => step start
+      end
+  end.
+Definition ref_generator (u : utable) (lines : list text) : option (list (nat * nat)) :=
+  ref_gen_go u lines 1 init_state None.
+
+(* ---- the two open defect shapes of _analyze_line, as a boolean computed along rope's own scan of a line:
+   a triple-quote token directly followed by one more quote of the same kind, which is
+     - matched after an odd run of backslashes while inside the triple-quoted string of that kind
+       (rope skips all three quotes, the lexer only the first: C14-escaped-quote-before-closing-triple), or
+     - matched unescaped while inside the short string of that kind
+       (rope closes the string with all three quotes, the lexer with the first: C14-short-string-followed-by-triple-quote) *)
+Definition bad_shape (ins : text) (nbs : nat) (tok : text) (after : text) : bool :=
+  match tok with
+  | [q; _; _] =>
+      match after with
+      | c :: _ => (c =? q) && (if Nat.odd nbs then text_eqb ins tok else text_eqb ins [q])
+      | [] => false
+      end
+  | _ => false
+  end.
+
+Fixpoint scan_line_ok (r : text) (skip : nat) (st : scan_st) : bool :=
+  match r with
+  | [] => true
+  | _ :: r1 =>
+      if s_stop st then true
+      else
+        match skip with
+        | S k => scan_line_ok r1 k st
+        | O =>
+            match main_match_at r with
+            | Some (n, tok) =>
+                negb (bad_shape (s_in st) n tok (skipn (n + length tok) r))
+                && scan_line_ok r1 (n + length tok - 1) (step_token st n tok)
+            | None => scan_line_ok r1 O st
+            end
+        end
+  end.
+
+Definition line_shape_ok (st : lstate) (line : text) : bool :=
+  scan_line_ok line O {| s_in := in_string st; s_open := open_count st; s_tok := None; s_stop := false |}.
+
+(* along custom_go: every analysed line avoids the two shapes (blank lines between logical lines are not analysed) *)
+Fixpoint shape_free_go (u : utable) (ls : list text) (st : lstate) (cur : bool) : bool :=
+  match ls with
+  | [] => true
+  | l :: rest =>
+      if negb cur && is_blank u l then shape_free_go u rest st false
+      else
+        let st' := analyze_line st l in
+        line_shape_ok st l
+        && shape_free_go u rest st' (negb (negb (line_open st') || match rest with [] => true | _ => false end))
+  end.
+Definition shape_free (u : utable) (lines : list text) : bool := shape_free_go u lines init_state false.
